@@ -3,14 +3,58 @@
    record cMem before the 2nd calloc), d89793f (releaseAllJobResources tolerates jobs == NULL), 35fb48d
    (copyCCtx forwards the reset error), 563c1f1 (jobReady cleared), 3a42f3b (resize recreates NULL pools),
    44900dc (a failed resize is retried).  Model only: NO proofs in this file.
-   Sizes are expressions over coq/Gen/Gen_Alloc.v (regenerated from the current sources on every run) where the
-   size is a sizeof/macro expression; workspace / buffer sizes that depend on compression parameters are a
-   parameter [sz] of the instance (the correspondence passes the observed size; no theorem reads a size). *)
+   Sizes that are sizeof / macro expressions are fields of the record [sizes]; every program takes the record as
+   its first argument.  The theorems hold for EVERY value of the record (no construct reads a size, so the heavy
+   proofs do not depend on coq/Gen); coq/Mem/AllocGen.v instantiates the record with coq/Gen/Gen_Alloc.v
+   (regenerated from the current sources on every run) for the correspondence runs.  Workspace / buffer sizes
+   that depend on compression parameters are a parameter [sz] of the instance (the correspondence passes the
+   observed size). *)
 From Coq Require Import NArith List Bool.
 From ZV.Mem Require Import AllocDsl.
-From ZV.Gen Require Import Gen_Alloc.
 Import ListNotations.
 Local Open Scope N_scope.
+
+Record sizes : Type := mkSizes {
+  z_sizeof_POOL_ctx : N;
+  z_sizeof_POOL_job : N;
+  z_sizeof_pthread_t : N;
+  z_sizeof_ZSTDMT_CCtx : N;
+  z_sizeof_jobDescription : N;
+  z_sizeof_bufferPool : N;
+  z_sizeof_buffer_t : N;
+  z_sizeof_CCtxPool : N;
+  z_sizeof_ptr : N;
+  z_sizeof_ZSTD_CCtx : N;
+  z_ZSTDMT_NBWORKERS_MAX : N;
+  z_sizeof_ZSTD_DCtx : N;
+  z_sizeof_ZSTD_DDict : N;
+  z_sizeof_DDictHashSet : N;
+  z_DDICT_HASHSET_TABLE_BASE_SIZE : N;
+  z_DDICT_HASHSET_RESIZE_FACTOR : N;
+  z_DDICT_HASHSET_MAX_LOAD_FACTOR_COUNT_MULT : N;
+  z_DDICT_HASHSET_MAX_LOAD_FACTOR_SIZE_MULT : N
+}.
+
+Section Instances.
+Variable zs : sizes.
+Local Notation a_sizeof_POOL_ctx := (z_sizeof_POOL_ctx zs).
+Local Notation a_sizeof_POOL_job := (z_sizeof_POOL_job zs).
+Local Notation a_sizeof_pthread_t := (z_sizeof_pthread_t zs).
+Local Notation a_sizeof_ZSTDMT_CCtx := (z_sizeof_ZSTDMT_CCtx zs).
+Local Notation a_sizeof_jobDescription := (z_sizeof_jobDescription zs).
+Local Notation a_sizeof_bufferPool := (z_sizeof_bufferPool zs).
+Local Notation a_sizeof_buffer_t := (z_sizeof_buffer_t zs).
+Local Notation a_sizeof_CCtxPool := (z_sizeof_CCtxPool zs).
+Local Notation a_sizeof_ptr := (z_sizeof_ptr zs).
+Local Notation a_sizeof_ZSTD_CCtx := (z_sizeof_ZSTD_CCtx zs).
+Local Notation a_ZSTDMT_NBWORKERS_MAX := (z_ZSTDMT_NBWORKERS_MAX zs).
+Local Notation a_sizeof_ZSTD_DCtx := (z_sizeof_ZSTD_DCtx zs).
+Local Notation a_sizeof_ZSTD_DDict := (z_sizeof_ZSTD_DDict zs).
+Local Notation a_sizeof_DDictHashSet := (z_sizeof_DDictHashSet zs).
+Local Notation a_DDICT_HASHSET_TABLE_BASE_SIZE := (z_DDICT_HASHSET_TABLE_BASE_SIZE zs).
+Local Notation a_DDICT_HASHSET_RESIZE_FACTOR := (z_DDICT_HASHSET_RESIZE_FACTOR zs).
+Local Notation a_DDICT_HASHSET_MAX_LOAD_FACTOR_COUNT_MULT := (z_DDICT_HASHSET_MAX_LOAD_FACTOR_COUNT_MULT zs).
+Local Notation a_DDICT_HASHSET_MAX_LOAD_FACTOR_SIZE_MULT := (z_DDICT_HASHSET_MAX_LOAD_FACTOR_SIZE_MULT zs).
 
 (* ------------------------------------------------------------------ labels *)
 (* thread pool object at base b (lib/common/pool.c) *)
@@ -582,6 +626,23 @@ Definition dstream_op (resize : bool) (sz : N) : prog :=
     IfFlag D_sizes (if resize then dstream_resize sz else Skip) (dstream_resize sz) ;;
     Use D_inBuff ;; Return true).
 
+(* ------------------------------------------------------------------ observation-driven variants for the correspondence:
+   the data-dependent test is decided by the NUMBER OF ALLOCATION ATTEMPTS n the real call was seen to make; what
+   is allocated first, what is freed before it, what is tested and what is returned remains the model's prediction *)
+Definition compress_obs (n wsz cdsz : N) : prog :=
+  IfFlag K_haveDict
+    (IfNull K_lcdict (compress_st_op (2 <=? n) wsz cdsz) (compress_st_op (1 <=? n) wsz cdsz))
+    (compress_st_op (1 <=? n) wsz cdsz).
+Definition dstream_obs (n sz : N) : prog := dstream_op (1 <=? n) sz.
+Definition ref_ddict_obs (n tsz : N) : prog :=
+  Call n_refDDict (
+    Use D_dctx ;;
+    clear_dict ;;
+    IfNull D_set (set_create ;; IfErr (Return false) Skip)
+                 (if 1 <=? n then (set_expand tsz ;; IfErr (Return false) Skip) else Skip) ;;
+    Use D_table ;;
+    Return true).
+
 (* ------------------------------------------------------------------ API-level operations
    (shared by the all-history theorems and by the correspondence runs) *)
 Inductive op : Type :=
@@ -598,7 +659,8 @@ Inductive op : Type :=
 | ODLoadDict (byRef : bool) (sz : N)
 | ODStream (resize : bool) (sz : N) | ODStreamAny (sz : N)
 | ORefDDict (count tsz : N) | ORefDDictAny (tsz : N)
-| ODDictCreate (k : N) (byRef : bool) (sz : N) | ODDictFree (k : N).
+| ODDictCreate (k : N) (byRef : bool) (sz : N) | ODDictFree (k : N)
+| OCompressObs (n wsz cdsz : N) | ODStreamObs (n sz : N) | ORefDDictObs (n tsz : N).
 
 Definition op_prog (o : op) : prog :=
   match o with
@@ -626,6 +688,9 @@ Definition op_prog (o : op) : prog :=
   | ORefDDictAny t => ref_ddict_multi_any t
   | ODDictCreate k r sz => ddict_create (DD k) (DDbuf k) r sz
   | ODDictFree k => ddict_free (DD k) (DDbuf k)
+  | OCompressObs n wsz cdsz => compress_obs n wsz cdsz
+  | ODStreamObs n sz => dstream_obs n sz
+  | ORefDDictObs n tsz => ref_ddict_obs n tsz
   end.
 
 (* one API call: failure bookkeeping restarts, the call never "returns" out of the sequence *)
@@ -663,6 +728,9 @@ Definition op_of_code (code : N) (ps : list N) : op :=
   | 24 => ODDictCreate (p0 ps) (nz (p1 ps)) (p2 ps)
   | 25 => ODDictFree (p0 ps)
   | 26 => ORefDDict (p0 ps) (p1 ps)
+  | 17 => OCompressObs (p0 ps) (p1 ps) (p2 ps)
+  | 27 => ODStreamObs (p0 ps) (p1 ps)
+  | 28 => ORefDDictObs (p0 ps) (p1 ps)
   | _ => OReset
   end.
 
@@ -671,3 +739,5 @@ Definition op_of_code (code : N) (ps : list N) : op :=
 Definition run_ops (ops : list (N * list N)) (faults : list nat) : list event * list nat * list err :=
   let s := fst (run (oracle_of faults [] []) (ops_prog (map (fun x => op_of_code (fst x) (snd x)) ops)) init_state) in
   (rev (trace s), live s, errs s).
+
+End Instances.
